@@ -87,10 +87,10 @@ func (s c17Spec) isSym() bool {
 	}
 	return false
 }
-func (s c17Spec) isRSA() bool   { return strings.HasPrefix(s.Type, "rsa-") }
-func (s c17Spec) isEC() bool    { return strings.HasPrefix(s.Type, "ecdsa-") }
+func (s c17Spec) isRSA() bool    { return strings.HasPrefix(s.Type, "rsa-") }
+func (s c17Spec) isEC() bool     { return strings.HasPrefix(s.Type, "ecdsa-") }
 func (s c17Spec) encrypts() bool { return s.isSym() || s.isRSA() }
-func (s c17Spec) signs() bool   { return s.isRSA() || s.isEC() || s.Type == "ed25519" }
+func (s c17Spec) signs() bool    { return s.isRSA() || s.isEC() || s.Type == "ed25519" }
 func (s c17Spec) rsaBits() int {
 	n, _ := strconv.Atoi(strings.TrimPrefix(s.Type, "rsa-"))
 	return n
@@ -497,6 +497,9 @@ type c17API struct {
 	noCache bool
 	r       *kit.Result
 	id      string
+	// panicClass overrides the class of a recovered handler panic while a
+	// request whose failure signature is already known is being retried.
+	panicClass string
 }
 
 func c17NewAPI(ctx context.Context, r *kit.Result, id string, noCache bool) (*c17API, error) {
@@ -543,7 +546,11 @@ func (a *c17API) do(op logical.Operation, path string, data map[string]any) (out
 	defer func() {
 		if p := recover(); p != nil {
 			out = c17Resp{Refused: true, Err: fmt.Sprintf("PANIC: %v", p)}
-			a.r.Violate("C17-panic", a.id, fmt.Sprintf("%s %s panicked: %v", op, path, p), nil)
+			cls := "C17-panic"
+			if a.panicClass != "" {
+				cls = a.panicClass
+			}
+			a.r.Violate(cls, a.id, fmt.Sprintf("%s %s panicked: %v", op, path, p), nil)
 		}
 	}()
 	resp, err := a.b.HandleRequest(a.ctx, &logical.Request{Operation: op, Path: path, Data: data, Storage: a.reqStorage()})
@@ -610,6 +617,27 @@ func c17Int(v any) int {
 func c17Str(v any) string {
 	s, _ := v.(string)
 	return s
+}
+
+// c17NeedleOf is the textual form under which the private part of a key entry
+// appears in serialised storage ("" if none).
+func c17NeedleOf(ke keysutil.KeyEntry, s c17Spec) string {
+	switch {
+	case s.isRSA():
+		if ke.RSAKey == nil || ke.RSAKey.D == nil {
+			return ""
+		}
+		return ke.RSAKey.D.String()
+	case s.isEC():
+		if ke.EC_D == nil {
+			return ""
+		}
+		return ke.EC_D.String()
+	}
+	if len(ke.Key) == 0 {
+		return ""
+	}
+	return c17b64(ke.Key)
 }
 
 // capture reads the freshly generated version from storage.
